@@ -433,6 +433,29 @@ func rawEntryPoints() []entryPoint {
 			var d int
 			return canonList(z.Int().GT(5).Parse(3, &d, z.WithCtxValue(i18n.LangKey, "fr")))
 		}},
+		// deriving from a shared base WHILE other goroutines execute it (and derive from it): the helpers only read
+		// their operands
+		{"derive Pick while executing", func() string {
+			var d rec
+			return canonMap(strct.Pick("name").Parse(bad, &d)) + fmt.Sprint(d)
+		}},
+		{"derive Omit while executing", func() string { var d rec; return canonMap(strct.Omit("tags").Parse(bad, &d)) + fmt.Sprint(d) }},
+		{"derive Extend while executing", func() string {
+			type recX struct {
+				Name  string
+				Tags  []string
+				In    struct{ City string }
+				Extra int
+			}
+			var d recX
+			return canonMap(strct.Extend(z.Schema{"extra": z.Int().GT(5)}).Parse(map[string]any{"name": "x", "extra": 1}, &d))
+		}},
+		{"derive Merge while executing", func() string {
+			var d rec
+			a := z.Struct(z.Schema{"name": z.String().Min(3)}).Merge(strct)
+			b := strct.Merge(z.Struct(z.Schema{"name": z.String().Min(3)}))
+			return canonMap(a.Parse(bad, &d)) + " / " + canonMap(b.Parse(bad, &d))
+		}},
 		{"String.Parse", func() string { var d string; return canonList(z.String().Min(5).Email().Parse("ab", &d)) + d }},
 		{"String.Validate", func() string { d := "ab"; return canonList(z.String().Min(5).Validate(&d)) }},
 		{"Int.Parse", func() string { var d int; return canonList(z.Int().GT(5).LT(0).Parse(3, &d)) }},
